@@ -923,7 +923,7 @@ pub fn run(opts: &Opts) -> Report {
          non-trivial = scripts with at least one removal and one annotation on an annotation; distinct = distinct scripts",
     );
     let property = opts.property.as_deref();
-    let (nscripts, maxops) = if opts.thorough() { (3000, 60) } else { (260, 32) };
+    let (nscripts, maxops) = if opts.thorough() { (12000, 60) } else { (1200, 36) };
     // corpus of minimised past failures first
     let corpus_dir = std::path::Path::new(env!("CARGO_MANIFEST_DIR")).join("corpus/store");
     if let Ok(rd) = std::fs::read_dir(&corpus_dir) {
